@@ -1769,6 +1769,13 @@ def oracle(c, out):
         if isinstance(full, Err):
             if not c['allow_missing'] and interior_gap:
                 return None        # caller asked for a refusal of missing positions
+            if c.get('form') and c['omit'] and not c['src_has_sbs'] and len(ne) >= 2:
+                # missing frames and NO recorded slice spacing: the spacing can only be taken from the
+                # smallest gap between stored planes; when another gap is not a multiple of it the stack is
+                # not regular at that spacing and a refusal (RuntimeError) is the documented outcome
+                gaps = [b - a for a, b in zip(ne, ne[1:])]
+                if any(g % min(gaps) for g in gaps) and full.kind == 'RuntimeError':
+                    return None
             return f'get_volume refused a regular volume: {full}'
         vin, vout = _vox_map_in(c), _vox_map_out(full)
         if vin != vout:
